@@ -174,11 +174,13 @@ def classify(e):
 
 def main():
     payload = json.load(sys.stdin)
-    path = Path("c06_prog.py").resolve()
+    import os
+    modname = f"c06_prog_{os.getpid()}"        # several harness processes share the scratch dir
+    path = Path(modname + ".py").resolve()
     path.write_text(payload["module"])
-    spec = importlib.util.spec_from_file_location("c06_prog", path)
+    spec = importlib.util.spec_from_file_location(modname, path)
     mod = importlib.util.module_from_spec(spec)
-    sys.modules["c06_prog"] = mod
+    sys.modules[modname] = mod
     spec.loader.exec_module(mod)
     out = {}
     for name in payload["funcs"]:
